@@ -14,8 +14,15 @@ def oracle(case, impl_lines, model_lines):
     for i, op in enumerate(hist):
         if op[0] == "setpanic":
             (on.add if op[2] != "0" else on.discard)(op[1])
+        if op[0] == "evfault":
+            (on.discard if op[1] == "off" else on.add)("ev")
         if op[0] == "get" and not on and a["R"].get(i) == "panic 5":
             return dict(level="oracle", step=i, why="injected panic although every fault switch is off")
+        if op[0] == "get" and a["R"].get(i) == "panic 5" and "ev" in on:
+            # the event-callback fault is one-shot; it may have been the one that fired
+            # (if a body switch is also on we cannot tell which: keep the weaker knowledge)
+            if on == {"ev"}:
+                on.discard("ev")
     return None
 
 
